@@ -5,7 +5,8 @@ import WfModel.GenSseClient
 
 Executable model of
 
-* the server's rendering of an event list from a cursor as an SSE character stream, exactly as
+* the server's choice of what to stream (`_resolve_event_stream`: 204 test on all remaining events,
+  `include_internal` filter on the subscription) and its rendering as an SSE character stream, exactly as
   `_WorkflowAPI._stream_events.format_stream` frames it
   (`f"id: {sequence}\ndata: {payload}\n\n"`, heartbeat comments `": heartbeat\n\n"` in between,
   HTTP 204 when nothing is left and the run is complete; the literal pieces come from
@@ -24,7 +25,7 @@ Executable model of
   `ConnectionError` when `attempts > max_reconnect_attempts`, `TimeoutError` for timeouts,
   validation errors and HTTP status errors end the stream.
 
-Not modelled: the `"now"` cursor, cancellation (`aclose`), `include_internal` filtering.
+Not modelled: the `"now"` cursor, cancellation (`aclose`).
 JSON validation (`EventEnvelopeWithMetadata.model_validate_json`) is the parameter `valid`.
 -/
 
@@ -94,12 +95,17 @@ structure Ev where
   seq : Nat
   payload : List Char
   terminal : Bool
+  /-- `InternalDispatchEvent` is the envelope's type or among its `types` -/
+  internal : Bool := false
   deriving DecidableEq, Repr
 
 structure Server where
   log : List Ev
   /-- the handler's persisted status is terminal -/
   statusDone : Bool := false
+  /-- the `include_internal` query flag of the stream's requests (the reader sends the same one
+  on every connection) -/
+  inclInternal : Bool := true
   deriving Repr
 
 /-- `subscribe_events`: stop right after the first terminal event -/
@@ -129,13 +135,18 @@ inductive Resp where
   | stream (body : List Char) (closes : Bool)
   deriving Repr, DecidableEq
 
-/-- `_stream_events` + `_resolve_event_stream` for a numeric cursor -/
+/-- `event_gen` of `_resolve_event_stream`: `if not include_internal and "InternalDispatchEvent" in types: continue` -/
+def Server.shows (s : Server) (e : Ev) : Bool := s.inclInternal || !e.internal
+
+/-- `_stream_events` + `_resolve_event_stream` for a numeric cursor: the 204 test looks at all the
+remaining events, the subscription ends with the first terminal one, internal events are left
+out of the frames unless asked for -/
 def Server.serve (s : Server) (c : Int) (hb : List Nat) : Resp :=
   let later := s.later c
   if later.isEmpty && s.complete then .status 204
   else
     let evs := takeThrough (·.terminal) later
-    .stream (render evs hb) (evs.any (·.terminal))
+    .stream (render (evs.filter s.shows) hb) (evs.any (·.terminal))
 
 /-! ## transport -/
 
@@ -324,8 +335,8 @@ def streamLast (init : Int) (queued : List (Int × List Char)) (k : Nat) : Int :
 
 /-! ## what should come out -/
 
-/-- events after `c0` through the first terminal one -/
-def expected (srv : Server) (c0 : Int) : List Ev := takeThrough (·.terminal) (srv.later c0)
+/-- events after `c0` through the first terminal one, those the `include_internal` flag lets through -/
+def expected (srv : Server) (c0 : Int) : List Ev := (takeThrough (·.terminal) (srv.later c0)).filter srv.shows
 
 /-- what the stream yields for an event, with the `last_sequence` it shows afterwards -/
 def emit (evs : List Ev) : List (Int × List Char) := evs.map fun e => ((e.seq : Int), e.payload)
